@@ -19,9 +19,7 @@ pub fn gen(seed: u64, tier: Tier) -> ScenarioSpec {
     spec.knobs.insert("schedules".into(), if tier == Tier::Thorough { 12 } else { 6 });
     spec.knobs.insert("sched_seed".into(), (rng.next_u64() >> 1) as i64);
     spec.compression = *rng.pick(&[Compression::None, Compression::Lz4, Compression::Zstd]);
-    if rng.chance(1, 4) {
-        spec.knobs.insert("prelude".into(), 1);
-    }
+    spec.knobs.insert("prelude".into(), gen_prelude(&mut rng, &[1, 4, 5], 3));
     spec
 }
 
